@@ -130,6 +130,11 @@ class Geometry(ABC):
     def copy(self):
         pass
 
+    def __copy__(self):
+        # the default shallow copy would share every array,
+        # entity and graph with the original object
+        return self.copy()
+
     @abc.abstractmethod
     def show(self):
         pass
